@@ -1,10 +1,9 @@
 /*@unit {
- 'kind': 'proof', 'mode': 'legacy',
+ 'kind': 'proof', 'mode': 'legacy', 'tier': 'thorough',
  'bound': 'number of scatter-gather pieces <= NPIECES (1 = the single-buffer gstuffing() path; 3 in the thorough tier); unbounded in payload length and content',
  'functions': ['gstuffing_v', 'gstuff_byte', 'igris_strmcrc8'],
  'extract': 'units/C04/gstuff_extract.py',
- 'params': {'CTX': [0, 1], 'NPIECES': [1]},
- 'params_thorough': {'CTX': [0, 1, 2], 'NPIECES': [1, 3]},
+ 'params': {'CTX': [0, 1], 'NPIECES': [3]},
  'clauses': 'configurable encoder gstuffing_v (gstuff.cpp, extracted to C mechanically), every payload of every length in every '
             'scatter-gather partition (both loops closed by invariants, no bound), alphabet CTX (0 = gstuff_context_v0(), 1 = default, '
             '2 = any valid alphabet): frame starts with START, ends with STOP, no unescaped marker inside, length <= 2n+4, writes '
